@@ -17,6 +17,8 @@ def PR.width (pr : PR) : U16 := if pr.isWildcard then 0xFFFF#16 else pr.high - p
 
 def PR.denotes (pr : PR) (p : U16) : Prop := pr.isWildcard ∨ (pr.low.toNat ≤ p.toNat ∧ p.toNat ≤ pr.high.toNat)
 
+instance (pr : PR) (p : U16) : Decidable (pr.denotes p) := by unfold PR.denotes; exact inferInstance
+
 inductive Strategy | exact | ternary
 
 def asTrivial (pr : PR) : Option Rule :=
@@ -34,6 +36,28 @@ def asComplex (s : Strategy) (pr : PR) : Option (List Rule) :=
   else match s with
     | .exact => if pr.width > 100#16 then none else some (exactRules pr)
     | .ternary => some (ternary pr.low pr.high)
+
+/-- `newRangeMatchPortRange`: an inverted pair becomes the zero value -/
+def newRange (lo hi : U16) : PR := if lo > hi then ⟨0#16, 0#16⟩ else ⟨lo, hi⟩
+
+/-- decimal port lexing as `strconv.ParseUint(s, 10, 16)` accepts it: non-empty, digits only, ≤ 65535
+(hand model of the library function; validated by the correspondence run, not verified) -/
+def parseU16 (s : String) : Option U16 :=
+  if s.isEmpty ∨ !s.all Char.isDigit then none
+  else match s.toNat? with
+    | some n => if n ≤ 65535 then some (BitVec.ofNat 16 n) else none
+    | none => none
+
+/-- `endpoint.parsePort` after `strings.Split(port, "-")` -/
+def parsePortParts : List String → Option PR
+  | [a] => (parseU16 a).map fun n => newRange n n
+  | [a, b] =>
+    match parseU16 a, parseU16 b with
+    | some lo, some hi => if lo > hi then none else some (newRange lo hi)
+    | _, _ => none
+  | _ => none
+
+def parsePort (s : String) : Option PR := parsePortParts (s.splitOn "-")
 
 end Tern
 
